@@ -158,6 +158,8 @@ class OriginDomain(Domain):
                 return v
             if name in ('conj', 'conjugate'):
                 return Og(v.o, -v.r, v.kind)
+            if name in ('sum', 'mean', 'max', 'min', 'std', 'var', 'any', 'all') and not args and not kwargs:
+                return Real()
         if isinstance(v, Real):
             return Real()
         return None
